@@ -5,8 +5,11 @@
 cd "$(dirname "$0")/../coq" || exit 2
 make -j16 > /dev/null 2>&1 || { echo "coq build failed"; exit 1; }
 mods=$(ls Properties/*.v | sed 's#Properties/\(.*\)\.v#Properties.\1#')
-( echo "coqchk $(coqchk --version 2>&1 | head -1)"; date -u; echo "modules: $mods";
-  timeout 7200 coqchk -silent -o -Q Model Model -Q Proofs Proofs -Q Spec Spec -Q Properties Properties $mods 2>&1 ) > ../evidence/coqchk.txt
+# the property files that depend on generated input (compiled by the C19 / C08 / C15 checks against Generated/*.v): included when their .vo are there
+sep=""
+for f in Separate/*.v; do b=$(basename "$f" .v); [ -f "Separate/$b.vo" ] && sep="$sep $b"; done
+( echo "coqchk $(coqchk --version 2>&1 | head -1)"; date -u; echo "modules: $mods$sep";
+  timeout 7200 coqchk -silent -o -Q Model Model -Q Proofs Proofs -Q Spec Spec -Q Properties Properties -Q Generated Generated -Q Separate "" $mods $sep 2>&1 ) > ../evidence/coqchk.txt
 rc=$?
 tail -30 ../evidence/coqchk.txt
 exit $rc
